@@ -261,6 +261,12 @@ func (env *ExecEnv) expandParam(fields []*field, pe *ast.ParamExp, mode ExpMode)
 			a = []string{env.Args[1]}
 			null = env.Args[1] == ""
 		default:
+			if !quote && (pe.Op != "#" || pe.Word != nil) {
+				// one field per positional parameter
+				a = make([]string, len(env.Args)-1)
+				copy(a, env.Args[1:])
+				break
+			}
 			var b strings.Builder
 			sep := env.ifs()
 			for i, s := range env.Args[1:] {
